@@ -67,6 +67,13 @@ MODEL = dict(
              constants=dict(_c, Amts={1, 2}, NegAmt=True, Depth=2, AllAuth=True, BUG_C04=False, Emit=True, EmitMod=8),
              thorough=dict(Amts={0, 1, 2, 3}, EmitMod=2),
              invariants=["NoViolation", "Refines", "ImplInv"]),
+        # two holders, the core entry points, twice as deep (e.g. mint, freeze, approve, pause, transfer_from, unpause)
+        dict(name="deep", module="MC_Rwa",
+             constants=dict(_c, Acct={"a", "b"}, Amts={1, 2}, Depth=4, BUG_C04=False, Emit=True, EmitMod=20,
+                            Kinds={"mint", "transfer", "transfer_from", "approve", "forced_transfer", "burn", "freeze",
+                                   "unfreeze", "set_frozen", "pause", "unpause", "set_id", "set_ct"}),
+             thorough=dict(Depth=6, EmitMod=50),
+             invariants=["NoViolation", "Refines", "ImplInv"]),
         # vacuity guards: on the model of the pinned code (transfer_from without validate_transfer) the gate
         # monitor fails within 3 calls, and frozen > balance is reached (mint, freeze, approve, transfer_from)
         dict(name="nonvacuous", module="MC_Rwa",
@@ -78,7 +85,7 @@ MODEL = dict(
              invariants=["NoFrozenViolation"], expect="violation"),
     ],
     quick=dict(sample=4000, drive_runs=320, drive_len=40),
-    thorough=dict(sample=None, drive_runs=16000, drive_len=60),
+    thorough=dict(sample=None, drive_runs=8000, drive_len=60),
     need=[("mint", "ok"), ("mint", "fail"), ("transfer", "ok"), ("transfer", "fail"),
           ("transfer_from", "ok"), ("transfer_from", "fail"), ("approve", "ok"), ("approve", "fail"),
           ("forced_transfer", "ok"), ("forced_transfer", "fail"), ("burn", "ok"), ("burn", "fail"),
